@@ -35,7 +35,7 @@ def run_property(prop: str, tier: str, root: str | None = None) -> int:
         import time as _time
         from . import frames as _frames
         budget = float(os.environ.get("SA_MAX_TOTAL_SECONDS", "240"))
-        _frames.DEADLINE = _time.monotonic() + budget
+        _frames.DEADLINE = _time.process_time() + budget
         import signal as _signal
 
         def _on_alarm(_sig: int, _frm: object) -> None:
@@ -43,15 +43,16 @@ def run_property(prop: str, tier: str, root: str | None = None) -> int:
             # until it has escaped every handler on the way out
             raise AnalysisError(f"analysis budget exceeded ({int(budget)} s for one property, SA_MAX_TOTAL_SECONDS): the paths / guards grew too large to handle")
 
-        have_alarm = hasattr(_signal, "setitimer")
+        # CPU time of this process (ITIMER_PROF), not wall-clock time: the verdict must not depend on the load of the machine
+        have_alarm = hasattr(_signal, "setitimer") and hasattr(_signal, "ITIMER_PROF")
         if have_alarm:
-            _signal.signal(_signal.SIGALRM, _on_alarm)
-            _signal.setitimer(_signal.ITIMER_REAL, budget, 5.0)
+            _signal.signal(_signal.SIGPROF, _on_alarm)
+            _signal.setitimer(_signal.ITIMER_PROF, budget, 5.0)
         try:
             mod.run(prog, rep, tier)
         finally:
             if have_alarm:
-                _signal.setitimer(_signal.ITIMER_REAL, 0)
+                _signal.setitimer(_signal.ITIMER_PROF, 0)
             _frames.DEADLINE = None
         if tier == "thorough":
             from . import thorough
